@@ -8,14 +8,24 @@ sys.path.insert(0, VERIF)
 from irsym import term as T, solver as S
 from irsym.term import Term, Poly, PolyCtx
 
-KNOWN_FILE = os.path.join(VERIF, 'known_findings.json')
+KNOWN_FILE = os.path.join(VERIF, 'known_findings.txt')
 
 
 def load_known():
+    out = []
     if not os.path.exists(KNOWN_FILE):
-        return []
-    with open(KNOWN_FILE) as f:
-        return json.load(f)
+        return out
+    for ln in open(KNOWN_FILE):
+        ln = ln.strip()
+        if ln.startswith('known:'):
+            head, _, what = ln[6:].partition('::')
+            kv = dict(x.split('=', 1) for x in head.split() if '=' in x)
+            out.append({'status': 'known', 'property': kv.get('property'), 'key': kv.get('key'), 'what': what.strip()})
+        elif ln.startswith('fixed:'):
+            parts = ln[6:].split(None, 2)
+            kv = dict(x.split('=', 1) for x in parts[:1] if '=' in x)
+            out.append({'status': 'fixed', 'property': kv.get('property'), 'commit': parts[1] if len(parts) > 1 else None, 'what': parts[2] if len(parts) > 2 else ''})
+    return out
 
 
 class Check:
@@ -428,7 +438,10 @@ def generic_interp_vs_native(chk, h, cases):
             for nm in names:
                 mine = ps[0].out(nm)
                 for x, y in zip(mine, o[nm]):
-                    if x is None or not (x == y or (x != x and y != y)):
+                    if x is None:
+                        if y == y:
+                            ok = False   # native wrote a value the interpreter did not
+                    elif not (x == y or (x != x and y != y)):
                         ok = False
         if not ok:
             chk.cov['interp_vs_native']['mismatches'] += 1
